@@ -16,7 +16,7 @@ PROPS = {
  "C01": dict(needs=["Base", "Num", "Lex", "Jamo", "SpecC01", "Skeleton"], gen=["GenParse", "GenTS"], slices=[("slices_text", "c01_exhaustive"), ("slices_text", "c01_model_points"), ("slices_text", "c01_respell")]),
  "C08": dict(needs=["Base", "Num", "NumProofs", "Lex", "ParseProofs", "Strings", "Builtins", "Interp", "LinkNames", "ImpSearch"], gen=["GenParse", "GenNames", "GenIO"], slices=[("slices_text", "c08_codec"), ("slices_text", "c08_spellings"), ("slices_world", "c15_search")]),
  "C09": dict(needs=["Base", "Num", "NumProofs", "Lex", "ParseProofs"], gen=["GenParse"], slices=[("slices_text", "c09_parse")]),
- "C14": dict(needs=["Files", "FilesProofs", "FilesTotal", "LinkNames"], gen=["GenIO"], slices=[("slices_world", "c14_histories"), ("slices_world", "c14_total_histories"), ("slices_world", "c14_faults")]),
+ "C14": dict(needs=REFINE + ["Files", "FilesProofs", "FilesTotal", "LinkNames", "RunG", "IOSpec", "FileIO"], gen=["GenIO"], slices=[("slices_world", "c14_histories"), ("slices_world", "c14_total_histories"), ("slices_world", "c14_in_model"), ("slices_world", "c14_faults")]),
  "C15": dict(needs=["ImpSearch", "ImportProofs", "ImpLoad"], gen=[], slices=[("slices_world", "c15_search"), ("slices_world", "c15_semantics")]),
  "C06": dict(needs=CORE + ["Float", "Eq", "Complex"], gen=[], slices=[("slices_values", "c06_eq")]),
  "C12": dict(needs=REFINE + ["SeqProofs", "SliceReal", "RunG", "SeqSpec"], gen=[], slices=[("slices_values", "c12_seq")]),
